@@ -48,7 +48,10 @@ class Snap:
 
     def identity(self):
         """Per-channel identity tuples (what must survive a path unchanged)."""
-        return [(float(f), float(b), float(s), str(l), float(tp), float(to), float(d), float(r))
+        def num(x):
+            x = float(x)
+            return x if x == x else 'nan'          # fixtures without transmitter data carry NaN: equal to itself here
+        return [(float(f), float(b), float(s), str(l), num(tp), num(to), num(d), num(r))
                 for f, b, s, l, tp, to, d, r in zip(self.frequency, self.baud_rate, self.slot_width, self.label,
                                                     self.tx_power, self.tx_osnr, self.delta_pdb, self.roll_off)]
 
